@@ -168,10 +168,20 @@ def interleave(prog, run):
     ren = {}
     for a_ in ast.walk(fi.node):
         if isinstance(a_, ast.Assign) and len(a_.targets) == 1 and isinstance(a_.targets[0], ast.Name):
-            t_ = astq.src(a_.value, 200).replace('"', "'")
-            if t_.endswith("[0]['ref'].shape[0]") and a_.targets[0].id != "n_ref":
+            def ext0(e_):
+                """text of X when e_ is the first extent of X: X.shape[0], len(X), np.shape(X)[0]"""
+                if isinstance(e_, ast.Subscript) and isinstance(e_.slice, ast.Constant) and e_.slice.value == 0:
+                    if isinstance(e_.value, ast.Attribute) and e_.value.attr == "shape":
+                        return astq.src(e_.value.value, 200).replace('"', "'")
+                    if isinstance(e_.value, ast.Call) and astq.src(e_.value.func).split(".")[-1] == "shape" and len(e_.value.args) == 1:
+                        return astq.src(e_.value.args[0], 200).replace('"', "'")
+                if isinstance(e_, ast.Call) and astq.src(e_.func) == "len" and len(e_.args) == 1:
+                    return astq.src(e_.args[0], 200).replace('"', "'")
+                return None
+            x0 = ext0(a_.value)
+            if x0 is not None and x0.endswith("[0]['ref']") and a_.targets[0].id != "n_ref":
                 ren[a_.targets[0].id] = "n_ref"
-            elif isinstance(a_.value, ast.ListComp) and "['mov'].shape[0]" in t_ and a_.targets[0].id != "n_mov":
+            elif isinstance(a_.value, ast.ListComp) and (ext0(a_.value.elt) or "").endswith("['mov']") and a_.targets[0].id != "n_mov":
                 ren[a_.targets[0].id] = "n_mov"
     if ren and not ({"n_ref", "n_mov"} & {x_.id for x_ in ast.walk(fi.node) if isinstance(x_, ast.Name)} - set(ren.values()) - {"n_ref", "n_mov"}):
         class _R(ast.NodeTransformer):
